@@ -15,6 +15,7 @@ uint32_t vh_below(vh_rng *r, uint32_t n);          /* uniform in [0,n) ; n>0 */
 void vh_rand_bytes(vh_rng *r, void *buf, size_t n);
 /* "interesting" bytes: random / all 00 / all FF / walking one / low weight */
 void vh_fill_interesting(vh_rng *r, uint8_t *buf, size_t n);
+void vh_fill_msb_boundary(vh_rng *r, uint8_t *buf, size_t n);
 /* a 32-bit length that is far out of range but lands in [lo,hi] when multiplied by 2,4,8,16 or 32 modulo 2^32
    (lengths converted to bits / words / doubled before the range check) */
 uint32_t vh_wrap_len(vh_rng *r, uint32_t lo, uint32_t hi);
